@@ -184,6 +184,69 @@ func (it *bcInterp) stmt(fd *FuncDecl, s ast.Stmt, env bcEnv) (*bcReturn, error)
 		return nil, nil
 	case *ast.EmptyStmt:
 		return nil, nil
+	case *ast.DeclStmt:
+		// var x T / var x T = e: local result variables of the single-exit form
+		gd, ok := x.Decl.(*ast.GenDecl)
+		if !ok || gd.Tok != token.VAR {
+			break
+		}
+		info := fd.Pkg.TypesInfo
+		for _, sp := range gd.Specs {
+			vs, ok := sp.(*ast.ValueSpec)
+			if !ok {
+				return nil, fmt.Errorf("declaration outside the byte-class fragment")
+			}
+			for i, nm := range vs.Names {
+				obj := info.Defs[nm]
+				if obj == nil {
+					continue
+				}
+				if i < len(vs.Values) {
+					v, err := it.expr(fd, vs.Values[i], env)
+					if err != nil {
+						return nil, err
+					}
+					env[obj] = v
+				} else {
+					env[obj] = zeroOf(obj.Type())
+				}
+			}
+		}
+		return nil, nil
+	case *ast.AssignStmt:
+		if (x.Tok != token.ASSIGN && x.Tok != token.DEFINE) || len(x.Lhs) != len(x.Rhs) {
+			break
+		}
+		info := fd.Pkg.TypesInfo
+		vals := make([]any, len(x.Rhs))
+		for i, e := range x.Rhs {
+			v, err := it.expr(fd, e, env)
+			if err != nil {
+				return nil, err
+			}
+			vals[i] = v
+		}
+		for i, l := range x.Lhs {
+			id, ok := l.(*ast.Ident)
+			if !ok {
+				return nil, fmt.Errorf("assignment to a non-variable is outside the byte-class fragment")
+			}
+			if id.Name == "_" {
+				continue
+			}
+			obj := info.Defs[id]
+			if obj == nil {
+				obj = info.Uses[id]
+			}
+			if obj == nil || obj.Parent() == obj.Pkg().Scope() {
+				return nil, fmt.Errorf("assignment to %s is outside the byte-class fragment", id.Name)
+			}
+			if v, ok := vals[i].(int64); ok {
+				vals[i] = wrap(obj.Type(), v)
+			}
+			env[obj] = vals[i]
+		}
+		return nil, nil
 	}
 	return nil, fmt.Errorf("statement %T is outside the byte-class fragment", s)
 }
